@@ -85,6 +85,41 @@ func (m *Model) Run() ModelRun {
 	return r
 }
 
+// AfterObservedRun advances the model past a run it cannot predict (a cancelled one): the visit counters are taken
+// from the callbacks that run actually made, the store's visit log from what the store holds.
+func (m *Model) AfterObservedRun(out *Outcome) {
+	for _, e := range out.Events {
+		if e.Phase == "prep" && e.Node < len(m.visits) && e.Visit+1 > m.visits[e.Node] {
+			m.visits[e.Node] = e.Visit + 1
+		}
+	}
+	if !m.sc.FreshStore {
+		m.log = append([]string(nil), out.Store...)
+	}
+	for _, e := range out.Events { // Connect calls made inside the callbacks that did run, in the order they ran
+		if e.Phase == "exec" && e.Attempt != 1 {
+			continue
+		}
+		for _, mc := range m.sc.MidConnect {
+			if e.Node == mc.Node && e.Visit == mc.Visit && e.Phase == mc.Phase {
+				if m.extra == nil {
+					m.extra = map[int][]Conn{}
+				}
+				m.extra[mc.Flow] = append(m.extra[mc.Flow], mc.Conn)
+			}
+		}
+	}
+	for _, rw := range m.sc.Rewire { // then the Connect calls made after the run
+		if rw.AfterRun == m.runIdx {
+			if m.extra == nil {
+				m.extra = map[int][]Conn{}
+			}
+			m.extra[rw.Flow] = append(m.extra[rw.Flow], rw.Conn)
+		}
+	}
+	m.runIdx++
+}
+
 func (m *Model) node(id int, r *ModelRun) (action string, errID string) {
 	s := &m.sc.Nodes[id]
 	if s.Kind == KFlow {
